@@ -300,6 +300,30 @@ def fuse_deep(t, stop=lambda x: False):
 NEGATED_CMP = {"==": "!=", "!=": "==", "in": "not in", "not in": "in", "is": "is not", "is not": "is"}
 
 
+def _fold_empty_fill(body: list) -> list:
+    """``x = np.empty(shape[, dtype]); x.fill(c)`` (adjacent statements) is ``x = np.full(shape, c[, dtype])``."""
+    out = []
+    i = 0
+    while i < len(body):
+        st = body[i]
+        nxt = body[i + 1] if i + 1 < len(body) else None
+        if isinstance(st, ast.Assign) and len(st.targets) == 1 and isinstance(st.targets[0], ast.Name) and isinstance(st.value, ast.Call) \
+                and isinstance(st.value.func, ast.Attribute) and st.value.func.attr == "empty" and st.value.args \
+                and isinstance(nxt, ast.Expr) and isinstance(nxt.value, ast.Call) and isinstance(nxt.value.func, ast.Attribute) and nxt.value.func.attr == "fill" \
+                and isinstance(nxt.value.func.value, ast.Name) and nxt.value.func.value.id == st.targets[0].id and len(nxt.value.args) == 1 and not nxt.value.keywords:
+            call = ast.Call(func=ast.Attribute(value=st.value.func.value, attr="full", ctx=ast.Load()),
+                            args=[st.value.args[0], nxt.value.args[0]] + list(st.value.args[1:]), keywords=list(st.value.keywords))
+            new = ast.Assign(targets=st.targets, value=call)
+            ast.copy_location(new, st)
+            ast.fix_missing_locations(new)
+            out.append(new)
+            i += 2
+            continue
+        out.append(st)
+        i += 1
+    return out
+
+
 def negate(t):
     """``not t`` in negation normal form: the negation is pushed through and/or (de Morgan) and into ==, !=, in, is - never into an
     ordered comparison (``not a < b`` is not ``a >= b`` for NaN), so `not (x == c or x == e)` and `x != c and x != e` are one term."""
@@ -493,7 +517,7 @@ class FunctionTerms:
 
     # ------------------------------------------------------------------ statements
     def _block(self, body: list[ast.stmt], env: dict[str, Term], ctx: tuple) -> None:
-        body = _unfold_quantifiers(_fold_append_loops(self._canonical_loops(body)))
+        body = _unfold_quantifiers(_fold_append_loops(_fold_empty_fill(self._canonical_loops(body))))
         for s in body:
             self._stmt_(s, env, ctx)
             # implied guard: after ``if t: return`` the rest of the block runs under ``not t``
@@ -539,6 +563,25 @@ class FunctionTerms:
                 for row in rows:
                     unrolled.append(loc(ast.Assign(targets=[copy.deepcopy(st.target)], value=copy.deepcopy(row)), st))
                     unrolled.extend(copy.deepcopy(x) for x in st.body)
+                out.extend(self._canonical_loops(unrolled))
+                continue
+            # for x in (a, b): BODY  over a display of at most 4 elements: the elements are evaluated first, in order, then BODY runs once per element
+            if isinstance(st, ast.For) and not st.orelse and isinstance(st.iter, (ast.Tuple, ast.List)) and 1 <= len(st.iter.elts) <= 4 \
+                    and not any(isinstance(x, ast.Starred) for x in st.iter.elts) and isinstance(st.target, ast.Name) \
+                    and not list(own_level(st.body, (ast.Break, ast.Continue))):
+                import copy
+                pre, elems = [], []
+                for k, x in enumerate(st.iter.elts):
+                    if isinstance(x, (ast.Name, ast.Constant)):
+                        elems.append(x)
+                    else:
+                        tmp = f"__elem{k}_of_{st.target.id}_{st.lineno}"
+                        pre.append(loc(ast.Assign(targets=[ast.Name(id=tmp, ctx=ast.Store())], value=x), st))
+                        elems.append(ast.Name(id=tmp, ctx=ast.Load()))
+                unrolled = list(pre)
+                for x in elems:
+                    unrolled.append(loc(ast.Assign(targets=[ast.Name(id=st.target.id, ctx=ast.Store())], value=copy.deepcopy(x)), st))
+                    unrolled.extend(copy.deepcopy(b) for b in st.body)
                 out.extend(self._canonical_loops(unrolled))
                 continue
             # for i in count(a)  ->  i = a; while True: ...; i += 1
@@ -638,6 +681,11 @@ class FunctionTerms:
             elem = ("elem", it, self.uid())
             cond = elem if args[0] == ("const", None) else apply(args[0], [elem])
             return ("comp", "gen", elem, ((elem, it, (cond,)),))
+        if f[1] == "itertools.filterfalse" and len(args) == 2:
+            it = args[1]
+            elem = ("elem", it, self.uid())
+            cond = elem if args[0] == ("const", None) else apply(args[0], [elem])
+            return ("comp", "gen", elem, ((elem, it, (negate(cond),)),))
         if f[1] == "itertools.starmap" and len(args) == 2:
             it = args[1]
             elem = ("elem", it, self.uid())
@@ -657,10 +705,26 @@ class FunctionTerms:
             return None
         callee = None
         recv = None
+        deco_ok = False
         if f[0] == "global" and f[1].startswith(self.prog.PKG + "."):
             callee = self.prog.find_func(f[1])
             if callee is not None and callee.cls is not None:
-                callee = None
+                # Class.method(...) through the class name: a @classmethod (cls = the class) or a @staticmethod
+                kinds = [d.id for d in callee.node.decorator_list if isinstance(d, ast.Name)]
+                if len(callee.node.decorator_list) == 1 and kinds in (["classmethod"], ["staticmethod"]):
+                    deco_ok = True
+                    if kinds == ["classmethod"]:
+                        recv = ("global", f[1].rsplit(".", 1)[0])
+                else:
+                    callee = None
+        elif f[0] == "attr" and f[1] != ("param", "self") and self._record_class(f[1]) is not None:
+            # a method of a record (NamedTuple / frozen dataclass) value: evaluated in place with self = the record
+            mod, cls = self._record_class(f[1])
+            for n in cls.body:
+                if isinstance(n, ast.FunctionDef) and n.name == f[2] and not n.decorator_list:
+                    from .core import FuncRef as _FR
+                    callee = _FR(mod, n, cls)
+                    recv = f[1]
         elif f[0] == "attr" and f[1] == ("param", "self") and self._cls_stack[-1] is not None:
             mod, cls = self._cls_stack[-1]
             for n in cls.body:
@@ -668,7 +732,7 @@ class FunctionTerms:
                     from .core import FuncRef as _FR
                     callee = _FR(mod, n, cls)
                     recv = f[1]
-        if callee is None or "/tests/" in callee.module.rel() or not self.prog.inlinable(callee):
+        if callee is None or "/tests/" in callee.module.rel() or not self.prog.inlinable(callee, allow_decorated=deco_ok):
             return None
         if any(fr["qual"] == callee.qual for fr in self._inline_stack) or callee.qual == self.ref.qual:
             return None
@@ -721,6 +785,35 @@ class FunctionTerms:
             self.module, self.locals = saved
             self._cls_stack.pop()
         return _fold_returns(frame["returns"], len(base_ctx), falls_through=not _terminates(callee.node.body))
+
+    def _param_record_fields(self, name: str):
+        """Fields of the record class (NamedTuple / frozen dataclass of the package) a parameter of this function is annotated with."""
+        a = self.ref.node.args
+        for arg in a.posonlyargs + a.args + a.kwonlyargs:
+            if arg.arg == name and arg.annotation is not None:
+                ann = arg.annotation
+                if isinstance(ann, ast.Constant) and isinstance(ann.value, str):
+                    try:
+                        ann = ast.parse(ann.value, mode="eval").body
+                    except SyntaxError:
+                        return None
+                if isinstance(ann, (ast.Name, ast.Attribute)):
+                    q = self.prog.resolve(self.ref.module, ann)
+                    return self.prog.namedtuple_fields(q) if q else None
+        return None
+
+    def _record_class(self, base: Term):
+        """(module, class node) when the term is a value of a package record class: built by its constructor in this function, or the result of a
+        package function annotated to return it."""
+        q = self._nt_class.get(base) if hasattr(self, "_nt_class") else None
+        if q is None and base[0] == "call" and base[1][0] == "global" and base[1][1].startswith(self.prog.PKG + "."):
+            q = self.prog.returned_record_class(base[1][1])
+        if q is None:
+            return None
+        try:
+            return self.prog.cls(q)
+        except Exception:
+            return None
 
     def _local_function(self, s: ast.FunctionDef, env: dict[str, Term], ctx: tuple) -> Term:
         """A small named inner function (`def is_unknown(x): return not game.is_value_known(x)`) is the lambda it could have been written
@@ -1086,6 +1179,8 @@ class FunctionTerms:
             fields = self._nt_fields.get(base)
             if fields is None and base[0] == "call" and base[1][0] == "global" and base[1][1].startswith(self.prog.PKG + "."):
                 fields = self.prog.returned_namedtuple(base[1][1])
+            if fields is None and base[0] == "param" and not self._inline_stack:
+                fields = self._param_record_fields(base[1])
             if fields is not None and e.attr in fields:
                 i = fields.index(e.attr)
                 return base[1][i] if base[0] == "tuple" and len(base[1]) == len(fields) else ("index", base, ("const", i))
@@ -1147,7 +1242,19 @@ class FunctionTerms:
                     if len(args) + len(kd) == len(ntf) and all(n in kd for n in ntf[len(args):]):
                         tup = ("tuple", tuple(args) + tuple(kd[n] for n in ntf[len(args):]))
                         self._nt_fields[tup] = ntf
+                        if not hasattr(self, "_nt_class"):
+                            self._nt_class = {}
+                        self._nt_class[tup] = self.prog.chase(f[1])
                         return tup
+            # float(<int literal>) / int(<int literal>) are the literal (codes spelled through an IntEnum member: float(_Relation.UNRELATED))
+            if f in (("global", "float"), ("global", "int")) and len(args) == 1 and not kws and args[0][0] == "const" and type(args[0][1]) in (int, float) \
+                    and (f[1] == "float" or type(args[0][1]) is int):
+                return ("const", float(args[0][1]) if f[1] == "float" else args[0][1])
+            # functools.reduce(operator.add, it, 0) is sum(it)
+            if f == ("global", "functools.reduce") and len(args) == 3 and not kws and args[2] == ("const", 0) and (
+                    args[0] == ("global", "operator.add") or (args[0][0] == "lambda" and len(args[0][1]) == 2 and args[0][2] in (
+                        ("bin", "+", args[0][1][0], args[0][1][1]), ("bin", "+", args[0][1][1], args[0][1][0])))):
+                return ("call", ("global", "sum"), (args[1],), ())
             # np.compress(mask, a) / np.extract(mask, a) are a[mask] for a Boolean mask over a 1-D array
             if f in (("global", "numpy.compress"), ("global", "numpy.extract")) and len(args) == 2 and not kws and is_mask(args[0]):
                 return ("index", args[1], args[0])
@@ -1274,6 +1381,18 @@ class FunctionTerms:
         if isinstance(e, ast.Tuple):
             return ("tuple", tuple(self.ev(x, env, ctx) for x in e.elts))
         if isinstance(e, ast.List):
+            if e.elts and all(isinstance(x, ast.Starred) for x in e.elts) and len(e.elts) >= 2:
+                # [*a, *b] is the concatenation list(a) + list(b): recorded like `[.. for ..] + b`
+                parts = []
+                for x in e.elts:
+                    t = self.ev(x.value, env, ctx)
+                    if t[0] == "comp" and t[1] == "gen":
+                        t = ("comp", "list") + tuple(t[2:])
+                    parts.append(t)
+                out = parts[0]
+                for t in parts[1:]:
+                    out = ("bin", "+", out, t)
+                return out
             return ("list", tuple(self.ev(x, env, ctx) for x in e.elts))
         if isinstance(e, ast.Set):
             return ("set", tuple(self.ev(x, env, ctx) for x in e.elts))
